@@ -1,10 +1,32 @@
 /-
-  TE.Driver.Shape — protocol adapters for C18 (see TE/Driver/Count.lean for the conventions).
+  TE.Driver.Shape — protocol adapters for C18.
+    fn chk.<python helper name> k=v …   → ok | err <Kind>     the GENERATED check (TE/Gen/Shapes.lean) on the shapes sent
+    fn valid.<stem> k=v …               → ok true|false        the documented contract `Valid_<stem>` (TE/Spec/Shape.lean)
+    fn gap.names                        → ok stem::name|name;;stem::…   all pattern names
+    fn gap.<stem> k=v …                 → ok <name;name;…|->       names of the gap patterns `patterns_<stem>` that match
+  value tokens (no ':' so the generic parser keeps them as strings): `T2x3` shape (`T` = 0-dim), `none`,
+  `I-3` int, `Smacro` string, `Btrue`/`Bfalse`, `L3` list of 3 strings, `Lstr` single string.
 -/
 import TE.Driver.Fam
+import TE.Gen.Shapes
+import TE.Spec.Shape
 namespace TE.Driver
-open TE
+open TE TE.Shape
 
-def shapeFns : List (String × (Args → Except Err String)) := []
+def toCallArgs (a : Args) : CallArgs :=
+  a.filterMap fun (k, v) => match v with
+    | .s x => some (k, x)
+    | _ => none
+
+def shapeFns : List (String × (Args → Except Err String)) :=
+  Gen.dispatch.map (fun (n, f) => ("chk." ++ n, fun a =>
+    match f (toCallArgs a) with
+    | .ok => .ok ""
+    | .err e => .error e))
+  ++ ShapeSpec.validTable.map (fun (n, f) => ("valid." ++ n, fun a => .ok (toString (f (toCallArgs a)))))
+  ++ ShapeSpec.gapTable.map (fun (n, f) => ("gap." ++ n, fun a =>
+    let ms := f (toCallArgs a)
+    .ok (if ms.isEmpty then "-" else ";".intercalate ms)))
+  ++ [("gap.names", fun _ => .ok (";;".intercalate (ShapeSpec.gapNames.map fun (st, ns) => st ++ "::" ++ "|".intercalate ns)))]
 
 end TE.Driver
